@@ -14,7 +14,6 @@ Variable ord : key -> list rkind.
 Variable syncp : key -> bool.
 Hypothesis Hrank : wf_rank rules rank.
 Hypothesis Hdisc : forall k, r_disc (rules k) = [].
-Hypothesis Hsingle : forall k, r_single (rules k) = [].
 Hypothesis Hord : forall k, In RReq (ord k).
 Notation HInv := (HInv rules F).
 
@@ -37,7 +36,7 @@ Qed.
 (* the state a build starts in: the state at rest, in a new epoch, with the request of the build queued *)
 Lemma BInv_start s0 root : HInv s0 -> BInv root None (start_build (iemit (bump s0) (EBuildStart root)) root).
 Proof.
-  intros [(Q1 & Q2 & Q3 & Q4 & Q5 & Q6 & Q7 & Q8 & Q9) Hu Hnc Hdn Hbnd Hsig Hrows Hns].
+  intros [(Q1 & Q2 & Q3 & Q4 & Q5 & Q6 & Q7 & Q8 & Q9) Hu Hnc Hdn Hbnd Hsig Hrows].
   set (st := start_build _ root).
   assert (HR : forall k, rinfo_of st k = rinfo_of s0 k) by (intros k; unfold st, start_build; now autorewrite with iv).
   assert (HK : forall k, kind_of st k = kind_of s0 k) by (intros; unfold kind_of; now rewrite HR).
@@ -62,7 +61,7 @@ Proof.
     + unfold st, start_build. autorewrite with iv. exact Hu.
     + rewrite HE. lia.
     + intros k Hc. exfalso. exact (Hnocur k Hc).
-    + intros rq Ho. rewrite (HO rq Ho). split; [|reflexivity]. intros t Ht. discriminate.
+    + intros rq Ho. rewrite (HO rq Ho). split; intros t Ht; discriminate.
     + intros rq. rewrite HF. intros [].
     + intros t ti Hg. exfalso. eapply Hnotask; eauto.
     + left. rewrite HI. now left.
@@ -73,9 +72,8 @@ Proof.
     + intros k Hb. exfalso. unfold bAt in Hb. rewrite HRes, HE in Hb. destruct (Hbnd k) as [_ Hle]. unfold bAt in Hle. lia.
     + intros k. unfold bAt. rewrite HRes. apply Hsig.
     + intros k _ Hb. unfold bAt in Hb. rewrite HRes in Hb. apply (rowok_step rules F s0 st k (HRes k)); [|now apply Hrows].
-      intros d _ _. left. unfold stored, cAt. rewrite HRes. split; auto. lia.
+      intros d _ _ _. left. unfold stored, cAt. rewrite HRes. split; auto. lia.
     + intros k Hc. exfalso. exact (Hnocur k Hc).
-    + intros k d. unfold deps. rewrite HRes. apply Hns.
   - constructor.
     + intros rq Hrq. exfalso. exact (HSr rq Hrq).
     + intros k. rewrite HK. intros Hk. exfalso. destruct (Q9 k) as (Hq & _). contradiction.
@@ -105,7 +103,6 @@ Proof.
     + intros k. split; [apply (b_bnd _ _ _ HC k (Hidle k))|apply (b_le _ _ _ HC k)].
     + apply (b_sig _ _ _ HC).
     + intros k Hb. apply (b_rows _ _ _ HC k (Hidle k) Hb).
-    + apply (b_ns _ _ _ HC).
   - assert (Hc : curk sf root).
     { destruct (b_root _ _ _ _ _ _ HT) as [H|[(k & H)|[H|H]]]; auto.
       - rewrite Q3 in H. destruct H.
@@ -117,7 +114,7 @@ End Build.
 
 Lemma HInv_frame s s' : (forall k, rinfo_of s' k = rinfo_of s k) -> quiescent s' -> is_usedb s' = is_usedb s -> is_epoch s' = is_epoch s -> HInv s -> HInv s'.
 Proof.
-  intros HR Q Hu He [H1 H2 H3 H4 H5 H6 H7 H8].
+  intros HR Q Hu He [H1 H2 H3 H4 H5 H6 H7].
   assert (HRes : forall k, res_of s' k = res_of s k) by (intros; unfold res_of; now rewrite HR).
   constructor; auto.
   - congruence.
@@ -127,7 +124,6 @@ Proof.
   - intros k. unfold bAt. rewrite HRes. apply H6.
   - intros k. unfold bAt. rewrite HRes. intros Hb. apply (rowok_step rules F s s' k (HRes k)); [|now apply H7].
     intros d _ _. left. unfold stored, cAt. rewrite HRes. split; auto. lia.
-  - intros k d. unfold deps. rewrite HRes. apply H8.
 Qed.
 
 Lemma HInv_init : HInv init_istate.
@@ -140,7 +136,6 @@ Proof.
   - intros k. cbn. split; lia.
   - intros k Hb. now contradiction Hb.
   - intros k Hb. now contradiction Hb.
-  - intros k d H. destruct H.
 Qed.
 
 (* Stage 3a: a build from a state at rest that returns a value (no failed assert) returns the clean value of the requested key for
